@@ -19,7 +19,10 @@ specification identity (on a surface: after substituting the surface equation):
              convexity and the Coulomb upper bound by certificate identities;
   zmax, smooth_linear   C0/C1 across their switches and the stated arms;
   smooth_distance   in every orientation case its value is c * smin(c*a, c*b, w) with c = +-1, one pair (a, b) and a width
-             w >= 0 (smin kept symbolic, the orientation sign enumerated by np.sign -> {-1, 0, 1}).
+             w >= 0 (smin kept symbolic, the orientation sign enumerated by np.sign -> {-1, 0, 1});
+             over the coordinates of a corner s -> c -> e (rules/C18_geom.py: small vectors interpreted element-wise) the value
+             is the same for the edges given as (sc, ce) and as (ce, sc) -- the caller orders them by proximity -- and the
+             mirror factor is -1 (smoothed maximum) exactly when the far end points lie behind the other edge (convex corner).
 Rounding is modelled only for the exactness obligation; assumes eps > safeTol, sReg > 0, 0 < l < 1/2.
 """
 from __future__ import annotations
@@ -29,9 +32,10 @@ from fractions import Fraction
 
 from optilint.model import namedtuple_fields
 from optilint.core import Incomplete
-from optilint.expr import Algebra, NotPolynomial, Rat, Poly, simplify
-from optilint.piecewise import PW, solve_linear
+from optilint.expr import Algebra, NotPolynomial, Rat, Poly, simplify, poly_div_exact
+from optilint.piecewise import PW, solve_linear, _merge
 from .C18_pw import SymEval, TupleVal, cells, surfaces, exact_eval, exactness, term_str, sign_of
+from .C18_geom import GeoEval, vec, names
 
 LEVEL = "proof"
 RULE_TEXT = ("obligations = (function x cell of its switching arrangement x specification identity) + "
@@ -62,7 +66,7 @@ def _guarded(fn):
 def run(ctx):
     for m in (SF, FR, MC):
         ctx.need_module(m)
-    for rule_fn in (min_base, max_abs, zmax, smooth_linear, friction, users):
+    for rule_fn in (min_base, max_abs, zmax, smooth_linear, friction, users, corner):
         ctx.guard(rule_fn, ctx)
     ctx.trust("exact rational arithmetic (fractions.Fraction); normal forms of multivariate rational functions; d sqrt(E) = dE/(2 sqrt E); "
               "inlining of calls by Python's argument binding; IEEE: selection, negation, *(+-1), +0 are exact")
@@ -598,8 +602,276 @@ def users(ctx):
                bad_detail="smooth_distance is not c * smoothed-min(c*a, c*b, eps) with the same sign factor on both arguments and the result: " + bad)
 
 
+# ------------------------------------------------------------------ the corner the smoothed distance belongs to
+
+def _corner_samples(tol_name):
+    """exact rational corners s -> c -> e (convex / concave, right / acute / obtuse, off the origin, collinear), query points
+    around the shared vertex on three radii, two smoothing tolerances"""
+    F = Fraction
+    corners = [
+        ((1, -1), (1, 1), (-1, 1)), ((1, -1), (1, 1), (-1, -1)), ((-1, 1), (1, 1), (1, -1)),
+        ((-1, F(3, 5)), (F(1, 2), F(1, 5)), (F(17, 10), F(-9, 10))), ((3, -2), (4, F(-17, 10)), (F(23, 5), F(-4, 5))),
+        ((0, 0), (2, 0), (3, F(1, 7))), ((0, 0), (2, 0), (3, F(-1, 7))), ((-2, 5), (-3, 3), (-1, 2)), ((-2, 5), (-3, 3), (-5, 4)),
+        ((0, 0), (1, 1), (3, 3)),
+    ]
+    dirs = [(1, 0), (3, 1), (1, 1), (1, 3), (0, 1), (-1, 3), (-1, 1), (-3, 1), (-1, 0), (-3, -1), (-1, -1), (-1, -3), (0, -1), (1, -3), (1, -1), (3, -1)]
+    out = []
+    for (s, c, e) in corners:
+        for r in (F(1, 20), F(1, 2)):
+            for (dx, dy) in dirs:
+                for tol in ((F(1, 1000), F(3, 5)) if r < 1 and dx * dy == 0 else (F(1, 10),)):
+                    pt = {}
+                    for nm, v in (("S", s), ("C", c), ("E", e), ("P", (c[0] + r * dx, c[1] + r * dy))):
+                        for k, x in zip(names(nm), v):
+                            pt[k] = F(x)
+                    pt[tol_name] = tol
+                    out.append(pt)
+    return out
+
+
+def _fmt_corner(pt):
+    f = lambda n: "(" + ", ".join(f"{float(pt[k]):g}" for k in names(n)) + ")"
+    return f"s={f('S')}, c={f('C')}, e={f('E')}, p={f('P')}"
+
+
+def _same_value(ev, u: Rat, v: Rat):
+    """equal normal forms, or the same mirror factor on applications of the smoothed minimum whose operand pairs and widths
+    are equal as rational functions"""
+    A = ev.A
+    if A.equal(u, v):
+        return True
+    su, sv = _unit_times_app(ev, u), _unit_times_app(ev, v)
+    if su is None or sv is None or su[0] != sv[0]:
+        return False
+    (a0, a1, w0), (b0, b1, w1) = ev.sym_apps[su[1]][1], ev.sym_apps[sv[1]][1]
+    try:
+        return A.equal(w0, w1) and ((A.equal(a0, b0) and A.equal(a1, b1)) or (A.equal(a0, b1) and A.equal(a1, b0)))
+    except NotPolynomial:
+        return False
+
+
+def _sign_from_conditions(ev, q: Rat, conds):
+    """set of possible signs of q = N/den (den a product of norms, > 0) under the conjunction `conds`: a condition whose
+    polynomial D divides N with a cofactor N/(D den) of known sign restricts it, anything else leaves it open"""
+    q = simplify(ev.A.norm(q))
+    N = q.n
+    allowed = {-1, 0, 1}
+    if N.is_zero():
+        return {0}
+    for (a, pol) in conds:
+        if not a.diff.d.is_const() or not a.diff.n.t or a.diff.n.is_const():
+            continue
+        Dn = a.diff.n
+        quo = poly_div_exact(N, Dn)
+        if quo is None or quo.is_zero():
+            continue
+        sr = sign_of(ev, simplify(Rat(quo, q.d * a.diff.d)))     # q == (quo/den) * D with a factor of known sign
+        if sr in ("+", "0+"):
+            f = 1
+        elif sr in ("-", "-0"):
+            f = -1
+        else:
+            continue
+        s = ({-1} if pol else {0, 1}) if a.op == "Lt" else ({-1, 0} if pol else {1})
+        allowed &= {f * x for x in s}
+    return allowed
+
+
+def corner(ctx):
+    """smooth_distance as a function of the coordinates of a corner s -> c -> e (rules/C18_geom.py).
+
+    (1) The two edges reach the function ordered by their proximity to the query point, so one corner is met in both orders:
+        f((sc, ce), p) == f((ce, sc), p) -- the smoothed minimum / maximum is symmetric in its arguments, and so must be the
+        choice between them.  Proved by comparing every jointly satisfiable pair of cases of the two interpretations; refuted
+        by an exact rational corner at which the two (fully interpreted) values differ.
+    (2) The mirror factor k in k*smin(k*a, k*b, w) makes the smoothed *maximum* (k = -1) of the plane distances a, b exactly for a
+        convex corner.  Convexity is read off the function's own operands: at the far end of either edge the other edge's plane
+        distance is negative (the vertex lies behind that edge) for a convex corner, positive for a re-entrant one.  In every case
+        of the interpreted function that sign must be fixed by the case's own conditions and agree with k."""
+    rule = "T5-users"
+    sym = {}
+    for q, k in ((f"{SF}:min_base", "min"), (f"{SF}:min", "min"), (f"{SF}:max", "max"), (f"{SF}:abs", "abs")):
+        try:
+            sym[_anchor(ctx, q)] = k
+        except Incomplete:
+            pass
+    sd = _anchor(ctx, f"{EC}:smooth_distance")
+    if len(sd.params()) != 3:
+        raise Incomplete("smooth_distance no longer has the signature (twoEdges, p, smoothingTol)")
+    tol_name = sd.params()[2]
+    ev = GeoEval(ctx.repo, Algebra(), symbolic=sym, abs_as_atom=True, on_inline=ctx.touch)
+    A = ev.A
+    S, C, E, P = (vec(ev, n) for n in "SCEP")
+    first, second = TupleVal([S, C]), TupleVal([C, E])
+    runs = []
+    for tag, edges in (("(s-c, c-e)", [first, second]), ("(c-e, s-c)", [second, first])):
+        try:
+            pw = ev.run(sd, [TupleVal(edges), P, ev.atom_pw(tol_name)])
+        except NotPolynomial as ex:
+            raise Incomplete(f"smooth_distance cannot be lowered over the coordinates of a corner: {ex}")
+        if not isinstance(pw, PW):
+            raise Incomplete("smooth_distance does not return one scalar value")
+        runs.append((tag, pw))
+    ctx.assume("the two edges handed to smooth_distance form a corner s -> c -> e (they share the vertex c), in either order; edges have positive length")
+    (tag1, pw1), (tag2, pw2) = runs
+
+    known = {x for n in "SCEP" for x in names(n)} | {tol_name}
+
+    def unread(*rats):
+        """an atom that is neither a coordinate nor a norm / |.| / smoothed minimum of understood values: it stands for something
+        the interpreter could not read (a callee, a field of its result), anywhere below the given values"""
+        seen, todo = set(), [x for r in rats for x in r.atoms()]
+        while todo:
+            x = todo.pop()
+            if x in seen or x in known:
+                continue
+            seen.add(x)
+            if x in ev.sym_apps:
+                todo += [y for r in ev.sym_apps[x][1] for y in r.atoms()]
+            elif x in ev.absdefs:
+                todo += list(ev.absdefs[x].atoms())
+            elif x in A.rules:
+                todo += list(A.rules[x].atoms())
+            else:
+                return x
+        return None
+
+    # active case of either interpretation at every sample corner (exact arithmetic wherever no norm is involved); on demand
+    _memo = []
+
+    def samples():
+        if not _memo:
+            out = []
+            for pt in _corner_samples(tol_name):
+                full, cache, act = dict(pt), {}, []
+                for (_, pw) in runs:
+                    state = [(p, ev.holds(p.conds, full, cache)) for p in pw.pieces]
+                    hit = [p for (p, h) in state if h is True]
+                    act.append(hit[0] if (len(hit) == 1 and not any(h is None for (_, h) in state)) else None)
+                out.append((pt, full, act))
+            _memo.append(out)
+        return _memo[0]
+
+    # ---- (1) symmetry under exchange of the two edges
+    npairs, bad = 0, []
+    for P1 in pw1.pieces:
+        for P2 in pw2.pieces:
+            if ev._clean(_merge(P1.conds, P2.conds)) is None:
+                continue
+            npairs += 1
+            if not _same_value(ev, P1.value, P2.value):
+                bad.append((P1, P2))
+    if not bad:
+        ctx.proved(rule, sd, None, construct="edge-order-symmetric",
+                   detail=f"f({tag1}, p) == f({tag2}, p): equal values in all {npairs} jointly satisfiable pairs of cases")
+    else:
+        wit = None
+        for (pt, full, (Q1, Q2)) in samples():
+            if Q1 is None or Q2 is None or _same_value(ev, Q1.value, Q2.value):
+                continue
+            try:
+                v1, v2 = float(ev.value(Q1.value, full)), float(ev.value(Q2.value, full))
+            except (KeyError, ZeroDivisionError, TypeError):
+                continue
+            if abs(v1 - v2) > 1e-9 * max(1.0, abs(v1), abs(v2)):
+                wit = (pt, Q1, Q2, v1, v2)
+                break
+        if wit is not None:
+            pt, Q1, Q2, v1, v2 = wit
+            s1, s2 = _unit_times_app(ev, Q1.value), _unit_times_app(ev, Q2.value)
+            why = ""
+            if s1 is not None and s2 is not None and s1[0] != s2[0]:
+                kind = {1: "smoothed minimum (mirror factor +1)", -1: "smoothed maximum (mirror factor -1)"}
+                why = (f": the orientation factor depends on the order of the edges -- {kind[s1[0]]} for {tag1}, {kind[s2[0]]} for {tag2}")
+            ctx.refuted(rule, sd, None, construct="edge-order-symmetric",
+                        detail=f"smooth_distance is not symmetric in its two edges (the caller orders them by proximity to the query point): "
+                               f"at the corner {_fmt_corner(pt)} the edges given as {tag1} yield {v1:.6g}, given as {tag2} yield {v2:.6g}{why}")
+        else:
+            P1, P2 = bad[0]
+            u = unread(P1.value, P2.value, *[a.diff for (a, _) in P1.conds + P2.conds])
+            ctx.undecided(rule, sd, None, construct="edge-order-symmetric",
+                          detail=(f"the value goes through `{u}`, which the interpreter cannot read" if u else
+                                  f"{len(bad)} pair(s) of cases with different values for {tag1} / {tag2} are neither excluded by their "
+                                  f"conditions nor met at a sample corner: `{P1.value!r}` vs `{P2.value!r}`"))
+
+    # ---- (2) the mirror factor follows the convexity of the corner
+    _far = {}
+
+    def subst_at(r, V):
+        """the operand `r` with the query point moved to the vertex V"""
+        key = (repr(r), V)
+        if key not in _far:
+            _far[key] = A.subst(A.subst(r, names("P")[0], A.atom(names(V)[0])), names("P")[1], A.atom(names(V)[1]))
+        return _far[key]
+    ncase, verdict, msg = 0, True, ""
+    for idx, (tag, pw) in enumerate(runs):
+        for Pc in pw.pieces:
+            ua = _unit_times_app(ev, Pc.value)
+            if ua is None:
+                if verdict is True:
+                    verdict, msg = None, f"in one case the value `{Pc.value!r}` is not (+-1) * smoothed minimum"
+                continue
+            k, app = ua
+            a0, a1, _w = ev.sym_apps[app][1]
+            ops = [A.norm(A.const(k) * a0), A.norm(A.const(k) * a1)]      # the plane distances themselves
+            u = unread(*ops)
+            if u is not None:
+                if verdict is True:
+                    verdict, msg = None, f"the plane distances go through `{u}`, which the interpreter cannot read"
+                continue
+            try:
+                far = [q for V in ("S", "E") for q in (subst_at(o, V) for o in ops) if not A.is_zero(q)]
+            except (NotPolynomial, ZeroDivisionError):
+                far = None
+            if not far:
+                if verdict is True:
+                    verdict, msg = None, "the plane distances of the far end points of the corner could not be formed"
+                continue
+            ncase += 1
+            signs = set()
+            for q in far:
+                sq = _sign_from_conditions(ev, q, Pc.conds)
+                signs |= sq
+            # sign(q) = -1 : convex, the smoothed maximum (k = -1) is due;  +1 : re-entrant, the smoothed minimum (k = +1)
+            if signs <= {0, k}:
+                continue
+            # this case admits (as far as its conditions say) a corner of the other convexity: look for one
+            wit = None
+            for (pt, full, act) in samples():
+                if act[idx] is not Pc:
+                    continue
+                try:
+                    vals = [ev.value(q, full) for q in far]
+                except (KeyError, ZeroDivisionError, TypeError):
+                    continue
+                if all((v < 0) if k > 0 else (v > 0) for v in vals):
+                    wit = (pt, vals)
+                    break
+            if wit is not None:
+                pt, vals = wit
+                shape = "convex" if k > 0 else "re-entrant"
+                got, want = ("minimum", "maximum") if k > 0 else ("maximum", "minimum")
+                ctx.refuted(rule, sd, None, construct="mirror-factor-follows-convexity",
+                            detail=f"for the edges given as {tag} the orientation factor of smooth_distance is {k:+d} (smoothed {got} of the two plane "
+                                   f"distances) at the {shape} corner {_fmt_corner(pt)}: the far end points of the edges lie at plane distances "
+                                   f"{', '.join(f'{float(v):.4g}' for v in vals)} from the other edge, so the distance to this corner is the smoothed {want}")
+                verdict = False
+                break
+            if verdict is True:
+                verdict, msg = None, (f"for the edges given as {tag} a case with orientation factor {k:+d} does not fix the convexity of the corner "
+                                      f"by its own conditions, and no sample corner decides it")
+        if verdict is False:
+            break
+    if verdict is True and ncase == 0:
+        verdict, msg = None, "no case of smooth_distance has the form (+-1) * smoothed minimum"
+    if verdict is not False:
+        ctx.decide(rule, verdict, sd, None, construct="mirror-factor-follows-convexity",
+                   detail=f"in all {ncase} cases (both edge orders) the conditions of the case fix the sign of the far end points' plane distances, "
+                          f"and the smoothed maximum is taken exactly for the convex corner", bad_detail=msg)
+
+
 # the rule functions are also called from other properties (C16 shares smooth_linear): guard them at the definition
-min_base, max_abs, zmax, smooth_linear, friction, users = (_guarded(f) for f in (min_base, max_abs, zmax, smooth_linear, friction, users))
+min_base, max_abs, zmax, smooth_linear, friction, users, corner = (_guarded(f) for f in (min_base, max_abs, zmax, smooth_linear, friction, users, corner))
 
 
 def _replace_def(name, new_text):
@@ -870,6 +1142,8 @@ def variants(repo):
     E = "optimism/contact/EdgeCpp.py"
     RET = "    return sign*SmoothFunctions.min(sign*pd0, sign*pd1, tol)"
     FRI = "compute_friction_energy_from_perp_slip"
+    A1 = "    a1 = area(twoEdges[0][0], twoEdges[0][1], twoEdges[1][0])"
+    A2 = "    a2 = area(twoEdges[1][0], twoEdges[1][1], twoEdges[0][0])"
     return [
         Variant("blend coefficient", S, sub("(-0.25*(x+y-safeEps)**2 + x*y)/safeEps", "(-0.5*(x+y-safeEps)**2 + x*y)/safeEps"), "T7-min_base"),
         Variant("blend sign of eps", S, sub("(-0.25*(x+y-safeEps)**2 + x*y)/safeEps", "(-0.25*(x+y+safeEps)**2 + x*y)/safeEps"), "T7-min_base"),
@@ -941,4 +1215,20 @@ def variants(repo):
                     "    blend = (-0.25*(x+y-safeEps)**2 + x*y)/safeEps\n    return isInsideEps*blend + (1 - isInsideEps)*justMin"), None),
         Variant("smooth_distance: orientation factor from a mask", E,
                 _chain(sub("    sign = -np.sign(a1+a2)\n", "    sign = 1.0 - 2.0*(a1+a2 > 0)\n"), sub("    sign = np.where(sign==0, 1.0, sign)\n", "")), None),
+        # ---- the corner behind smooth_distance: order of the two edges, convexity
+        Variant("orientation area: wrong vertex of the second edge (matters for the reversed edge order only)", E,
+                sub(A1, "    a1 = area(twoEdges[0][0], twoEdges[0][1], twoEdges[1][1])"), "T5-users"),
+        Variant("orientation area: wrong vertex of the first edge (matters for the chain order only)", E,
+                sub(A2, "    a2 = area(twoEdges[1][0], twoEdges[1][1], twoEdges[0][1])"), "T5-users"),
+        Variant("orientation factor with the opposite sign (minimum at convex corners)", E, sub("    sign = -np.sign(a1+a2)\n", "    sign = np.sign(a1+a2)\n"), "T5-users"),
+        Variant("orientation from the cross product of the edge tangents (antisymmetric in the two edges)", E,
+                _chain(sub(A1, "    a1 = 0.5*cross(twoEdges[0][1]-twoEdges[0][0], twoEdges[1][1]-twoEdges[1][0])"), sub(A2, "    a2 = 0.0")), "T5-users"),
+        Variant("orientation area: wrong vertex, in a body with inlined closest points", E,
+                _replace_def("smooth_distance", _SD_INLINE.replace("ARG1", "orientation*pd1").replace("area(e0[0], e0[1], e1[0])", "area(e0[0], e0[1], e1[1])")), "T5-users"),
+        Variant("smooth_distance: orientation by the shoelace area of the four end points", E,
+                _chain(sub(A1, "    a1 = 0.5*(cross(twoEdges[0][0], twoEdges[0][1]) + cross(twoEdges[0][1], twoEdges[1][0]))"),
+                       sub(A2, "    a2 = 0.5*(cross(twoEdges[1][0], twoEdges[1][1]) + cross(twoEdges[1][1], twoEdges[0][0]))")), None),
+        Variant("smooth_distance: triangle areas by cross products of difference vectors", E,
+                _chain(sub(A1, "    a1 = 0.5*cross(twoEdges[0][1]-twoEdges[0][0], twoEdges[1][0]-twoEdges[0][0])"),
+                       sub(A2, "    a2 = cross(twoEdges[1][1]-twoEdges[1][0], twoEdges[0][0]-twoEdges[1][0])/2")), None),
     ]
